@@ -1,6 +1,7 @@
 import FordModel.Proto
 import FordModel.Scope
 import FordModel.ScopeSpec
+import FordModel.ScopeBlock
 namespace Ford
 open Proto Scope
 
@@ -11,11 +12,22 @@ structure Body where
   uses : List Use := []
   decls : List Decl := []
   slots : List Slot := []
-  kids : List Scope.Scope := []
+  blocks : List Block := []
+  kids : List BScope := []
 
-def kidsOfList : List Scope.Scope → Kids
+def kidsOfList : List BScope → BKids
   | [] => .nil
   | s :: r => .cons s (kidsOfList r)
+
+def blocksOfList : List Block → Blocks
+  | [] => .nil
+  | b :: r => .cons b (blocksOfList r)
+
+/-- accumulated content of a BLOCK construct -/
+structure BBody where
+  uses : List Use := []
+  decls : List Decl := []
+  inner : List Block := []
 
 def nsOf (s : Str) : NS := if s == "t".toList then .ty else if s == "a".toList then .ab else .pr
 def skOf (s : Str) : SK := if s == "ty".toList then .ty else if s == "pa".toList then .pa else .pr
@@ -25,6 +37,31 @@ def takePairs : Nat → List Str → List (Str × Str) → Option (List (Str × 
   | 0, r, acc => some (acc.reverse, r)
   | n + 1, l :: rm :: r, acc => takePairs n r ((l, rm) :: acc)
   | _ + 1, _, _ => none
+
+/-- block := "[" ( U ... | D ... | block )* "]" (the opening bracket is already consumed) -/
+def parseBlock : Nat → List Str → BBody → Option (Block × List Str)
+  | 0, _, _ => none
+  | fuel + 1, toks, b =>
+    match toks with
+    | [] => none
+    | t :: r =>
+      if t == "]".toList then some (.mk b.uses.reverse b.decls.reverse (blocksOfList b.inner.reverse), r)
+      else if t == "U".toList then
+        match r with
+        | m :: fl :: n :: r2 =>
+          match takePairs (natOf n) r2 [] with
+          | some (ps, r3) => parseBlock fuel r3 { b with uses := ⟨m, fl == "o".toList, ps⟩ :: b.uses }
+          | none => none
+        | _ => none
+      else if t == "D".toList then
+        match r with
+        | ns :: nm :: e :: r2 => parseBlock fuel r2 { b with decls := ⟨nsOf ns, nm, natOf e⟩ :: b.decls }
+        | _ => none
+      else if t == "[".toList then
+        match parseBlock fuel r {} with
+        | some (ib, r2) => parseBlock fuel r2 { b with inner := ib :: b.inner }
+        | none => none
+      else none
 
 /-- recursive descent with fuel (the token list is finite; fuel = its length) -/
 def parseBody : Nat → List Str → Body → Option (Body × List Str)
@@ -51,20 +88,24 @@ def parseBody : Nat → List Str → Body → Option (Body × List Str)
         | i :: k :: ph :: nm :: r2 =>
           parseBody fuel r2 { b with slots := ⟨natOf i, skOf k, phOf ph, nm⟩ :: b.slots }
         | _ => none
+      else if t == "[".toList then
+        match parseBlock fuel r {} with
+        | some (blk, r2) => parseBody fuel r2 { b with blocks := blk :: b.blocks }
+        | none => none
       else if t == "(".toList then
         match r with
         | nm :: e :: f :: r2 =>
           match parseBody fuel r2 {} with
           | some (cb, r3) =>
-            let s := Scope.Scope.mk nm (natOf e) (f == "1".toList) cb.uses.reverse cb.decls.reverse
-              cb.slots.reverse (kidsOfList cb.kids.reverse)
+            let s := BScope.mk nm (natOf e) (f == "1".toList) cb.uses.reverse cb.decls.reverse
+              cb.slots.reverse (blocksOfList cb.blocks.reverse) (kidsOfList cb.kids.reverse)
             parseBody fuel r3 { b with kids := s :: b.kids }
           | none => none
         | _ => none
       else none
 
 /-- project := ( ("M" | "N") scope )* ; every scope is "(" name ent isFunc body ")" -/
-def parseProject : Nat → List Str → List (Bool × Scope.Scope) → Option (List (Bool × Scope.Scope))
+def parseProject : Nat → List Str → List (Bool × BScope) → Option (List (Bool × BScope))
   | 0, _, _ => none
   | _ + 1, [], acc => some acc.reverse
   | fuel + 1, flag :: toks, acc =>
@@ -73,8 +114,8 @@ def parseProject : Nat → List Str → List (Bool × Scope.Scope) → Option (L
       if op == "(".toList then
         match parseBody (r2.length + 1) r2 {} with
         | some (cb, r3) =>
-          let s := Scope.Scope.mk nm (natOf e) (f == "1".toList) cb.uses.reverse cb.decls.reverse
-            cb.slots.reverse (kidsOfList cb.kids.reverse)
+          let s := BScope.mk nm (natOf e) (f == "1".toList) cb.uses.reverse cb.decls.reverse
+            cb.slots.reverse (blocksOfList cb.blocks.reverse) (kidsOfList cb.kids.reverse)
           parseProject fuel r3 ((flag == "M".toList, s) :: acc)
         | none => none
       else none
@@ -86,24 +127,33 @@ def showRes (r : Res) : List Str :=
 def variantOf (s : Str) : Variant :=
   ⟨(s.head? == some '1'), ((s.drop 1).head? == some '1')⟩
 
+/-- third character of the variant: 1 = USE statements inside a BLOCK are filed in the enclosing
+    unit (code as found), 0 = they are not; block-local declarations are never registered -/
+def regOf (s : Str) : BlockReg :=
+  ⟨((s.drop 2).head? == some '1'), false, false⟩
+
+/-- the block-local declarations the model says the parser registers in an enclosing unit -/
+def showReg (reg : BlockReg) (us : List (Bool × BScope)) : List Str :=
+  (us.flatMap fun x => registered reg x.2).map fun e => "r:".toList ++ showNat e
+
 end C07Wire
 
 open C07Wire in
 def dispatchC07 : List Str → Option (List Str)
   | cmd :: args =>
     if cmd == "c07.run".toList then
-      -- c07.run <variant: two chars 0/1 = alias, hostOverLocal> <project tokens>
+      -- c07.run <variant: three chars 0/1 = alias, hostOverLocal, blockUse> <project tokens>
       match args with
       | v :: toks =>
         match parseProject (toks.length + 1) toks [] with
-        | some us => some ("ok".toList :: showRes (corrProject (variantOf v) [] us))
+        | some us => some ("ok".toList :: (showRes (corrBProject (variantOf v) (regOf v) us) ++ showReg (regOf v) us))
         | none => some ["bad-project".toList]
       | _ => some ["bad-request".toList]
     else if cmd == "c07.spec".toList then
       match args with
       | toks =>
         match parseProject (toks.length + 1) toks [] with
-        | some us => some ("ok".toList :: showRes (specProject [] us))
+        | some us => some ("ok".toList :: showRes (specBProject us))
         | none => some ["bad-project".toList]
     else none
   | [] => none
